@@ -602,6 +602,9 @@ def set_notebook_diff_targets(sources=True, outputs=True, attachments=True,
     # The cell id and execution count are atomic values, so they never reach
     # a differ of their own and must be filtered out of the diff of the cell
     ignored_cell_keys = ()
+    if not attachments:
+        # Also hide the attachments key itself being added or removed
+        ignored_cell_keys += ('attachments',)
     if not identifier:
         ignored_cell_keys += ('id',)
     if not details:
